@@ -66,10 +66,14 @@ def pyKeywords : List Str := [
 
 def digitChar (d : Nat) : Char := Char.ofNat (0x30 + d)
 
+/-- decimal digits, most significant first; `fuel` bounds the number of digits (structural
+recursion, so that the definition also evaluates inside the kernel) -/
+def natDigitsFuel : Nat → Nat → Str
+  | 0, _ => []
+  | fuel + 1, n => if n < 10 then [digitChar n] else natDigitsFuel fuel (n / 10) ++ [digitChar (n % 10)]
+
 /-- decimal digits of a natural number, most significant first (`str(n)`) -/
-def natDigits (n : Nat) : Str :=
-  if _h : n < 10 then [digitChar n] else natDigits (n / 10) ++ [digitChar (n % 10)]
-decreasing_by omega
+def natDigits (n : Nat) : Str := natDigitsFuel (n + 1) n
 
 /-- `str(i)` for a Python `int` -/
 def pyStrInt (i : Int) : Str :=
